@@ -59,6 +59,7 @@ class _Env:
         self.cond_abs = self.root / "COND"
         self.compute = compute_tasks_to_archive
         self.wd = G.Watchdog()
+        self.vif = G.VersionIndexFactory()
         self.idents = [G.ident(i) for i in range(6)]
         self.id_index = {str(x): i for i, x in enumerate(self.idents)}
         self._raw = {}
@@ -117,45 +118,59 @@ def _eval_traverse(env, deps, root, tally):
 
 
 def _eval_archive(env, deps, kinds, tally):
+    """What `cond archive <task>` selects = the recorded versions of the archivable tasks of the closure.  The
+    selection is compared on the tasks that HAVE recorded versions (selecting a task without versions selects
+    nothing), once with every experiment recorded and once with only the odd-numbered ones recorded (so that the
+    closure is reached through experiments that never completed)."""
     n = len(deps)
-    ti = env.index(deps, kinds)
-    ctx = G.StubContext(env.root, ti)
     closure = G.reach_star(deps, 0)
-    want = sorted(G.task_id_str(i) for i in closure if kinds[i] == "e")
     par = G.parents_within(deps, closure)
     nontrivial = (any(kinds[i] == "e" for i in closure) and any(kinds[i] != "e" for i in closure)) \
         or any(kinds[v] == "e" and len(p) >= 2 for v, p in par.items())
-    tally.ev(ARCH, nontrivial)
     size = (n, G.n_edges(deps), sum(1 for k in kinds if k != "c"))
-    inp = G.graph_json(deps, kinds=kinds, extra={"task_identifier": "//:t0"})
-    got, ex = env.wd.call(env.compute, ctx, "//:t0")
-    none_case, ex2 = env.wd.call(env.compute, ctx, None)
-    ex = ex or ex2
-    if ex is not None:
-        tally.fail(ARCH, size, {"clause": "archive",
-                                "class": "non-termination" if isinstance(ex, G.NonTermination)
-                                else "archive-raised-" + type(ex).__name__,
-                                "input": inp, "expected": want,
-                                "observed": "%s: %s" % (type(ex).__name__, ex)})
-        return
-    if none_case is not None:
-        tally.fail(ARCH, size, {"clause": "archive_none", "class": "no-identifier-not-none",
-                                "input": dict(inp, task_identifier=None), "expected": None,
-                                "observed": repr(none_case)})
-    if got is None:
-        tally.fail(ARCH, size, {"clause": "archive_none", "class": "identifier-given-but-none",
-                                "input": inp, "expected": want, "observed": None})
-        return
-    got_s = [str(x) for x in got]
-    if sorted(got_s) != want:
-        if len(set(got_s)) != len(got_s):
-            cls = _dup_class(deps, closure)
-        elif set(got_s) - set(want):
-            cls = "non-archivable-or-foreign-task-selected"
-        else:
-            cls = "archivable-closure-member-missing"
-        tally.fail(ARCH, size, {"clause": "archive", "class": cls, "input": inp,
-                                "expected": want, "observed": got_s})
+    for mode in ("all-recorded", "odd-recorded"):
+        recorded = [i for i in range(n) if kinds[i] == "e" and (mode == "all-recorded" or i % 2 == 1)]
+        if mode == "odd-recorded" and not any(kinds[i] == "e" and i % 2 == 0 for i in closure):
+            continue        # same case as all-recorded
+        ti = env.index(deps, kinds)
+        vi = env.vif.fresh([(env.idents[i], 5 + i) for i in recorded])
+        ctx = G.StubContext(env.root, ti, vi)
+        rec_ids = {G.task_id_str(i) for i in recorded}
+        want = sorted(G.task_id_str(i) for i in closure if kinds[i] == "e" and i in recorded)
+        tally.ev(ARCH, nontrivial)
+        inp = G.graph_json(deps, kinds=kinds, extra={"task_identifier": "//:t0", "experiments_with_recorded_versions": sorted(rec_ids)})
+        got, ex = env.wd.call(env.compute, ctx, "//:t0")
+        none_case, ex2 = env.wd.call(env.compute, ctx, None)
+        ex = ex or ex2
+        if ex is not None:
+            if isinstance(ex, G.HarnessError):
+                raise ex
+            tally.fail(ARCH, size, {"clause": "archive",
+                                    "class": "non-termination" if isinstance(ex, G.NonTermination)
+                                    else "archive-raised-" + type(ex).__name__,
+                                    "input": inp, "expected": want,
+                                    "observed": "%s: %s" % (type(ex).__name__, ex)})
+            return
+        if none_case is not None:
+            tally.fail(ARCH, size, {"clause": "archive_none", "class": "no-identifier-not-none",
+                                    "input": dict(inp, task_identifier=None), "expected": None,
+                                    "observed": repr(none_case)})
+        if got is None:
+            tally.fail(ARCH, size, {"clause": "archive_none", "class": "identifier-given-but-none",
+                                    "input": inp, "expected": want, "observed": None})
+            return
+        got_all = [str(x) for x in got]
+        got_s = [x for x in got_all if x in rec_ids]
+        if sorted(got_s) != want:
+            if len(set(got_s)) != len(got_s):
+                cls = _dup_class(deps, closure)
+            elif set(got_s) - set(want):
+                cls = "non-archivable-or-foreign-task-selected"
+            else:
+                cls = "recorded-experiment-of-the-closure-missing"
+            tally.fail(ARCH, size, {"clause": "archive", "class": cls, "input": inp,
+                                    "expected": want, "observed": got_all})
+            return
 
 
 def _worker(arg):
